@@ -55,7 +55,7 @@ def describe(tier):
              'Transition = adding one layer.' % (n, KINDS, KEYS, LAYERS),
         nontrivial='at least two layers define the key (an override actually happens).',
         bounds=dict(pairs=n, subsets=8),
-        assumptions=['every transition is also executed on the live objects: expand() with the dicts of the smaller subset, the new '
+        assumptions=['stylesheet expansions of all states of a process go through one shared cache dict', 'every transition is also executed on the live objects: expand() with the dicts of the smaller subset, the new '
                      'layer written into the same dicts in place, expand() again = expand() with fresh dicts', 'every state is preceded by a resolution of the same syntax name under the other abbreviation type (and the '
                      'same global config)', 'the reference fold reads the *contents* of the built-in tables from a snapshot taken at start-up; their '
                      'precedence is what is checked', 'a `text: None` entry written into the call config by expand() equals absent '
@@ -150,9 +150,14 @@ def probe(typ, kind, key):
         return 'x>y'
     if typ == 'markup' and key == 'markup.attributes':
         return 'x.k'
+    if typ == 'markup' and key == 'jsx.enabled':
+        return 'Foo.Bar'               # read by the parser: a component name when the option is on, element + class when off
     if typ == 'stylesheet' and key in ('stylesheet.after', 'stylesheet.between', 'output.newline'):
         return 'p10+m5'
     return None
+
+
+SHARED_CACHE = {}
 
 
 def check_state(typ, syn, kind, key, subset, top='MARKER'):
@@ -205,16 +210,23 @@ def check_state(typ, syn, kind, key, subset, top='MARKER'):
         user3['snippets'] = fold(typ, syn, 'snippets', user, glob)
         user3['options'] = fold(typ, syn, 'options', user, glob)
         user3['variables'] = fold(typ, syn, 'variables', user, glob)
+        if typ == 'stylesheet':
+            user2['cache'] = SHARED_CACHE          # one cache for all states of the process: it must never change a result
         try:
             a = expand(pr, user2, glob2)
         except Exception as e:
             a = 'EXC:' + type(e).__name__
+        user2.pop('cache', None)
         try:
             b = expand(pr, user3, glob3)
         except Exception as e:
             b = 'EXC:' + type(e).__name__
         if a != b:
             bad.append(('expand-winner:%s' % kind, dict(key=key, probe=pr, layered=a[:120], explicit=b[:120], layers=list(subset))))
+        if key == 'jsx.enabled' and not a.startswith('EXC:') and syn not in ('pug', 'haml', 'slim'):     # (these write both readings alike)
+            # an absolute expectation as well: both expansions above go through the same parser
+            if ('<Foo.Bar' in a) != bool(exp.get(key)):
+                bad.append(('expand-winner-absolute:options', dict(key=key, probe=pr, effective_value=repr(exp.get(key)), output=a[:120], layers=list(subset))))
         user2.pop('text', None) if user2.get('text', 0) is None else None
         if user2 != u0 or glob2 != g0:
             bad.append(('caller-dict-modified:expand', dict(layers=list(subset))))
